@@ -436,6 +436,16 @@ func (f *Func) TraceNode(root ast.Node, T *types.Named, opts CodecOpts) ([]Event
 				emit("", argType(a))
 			}
 			for _, l := range lhsOf[c] {
+				if lid, ok := ast.Unparen(l).(*ast.Ident); ok {
+					lo := info.Defs[lid]
+					if lo == nil {
+						lo = info.Uses[lid]
+					}
+					if name, ok := links[lo]; ok && info.Defs[lid] != nil {
+						emit(name, info.TypeOf(l))
+						continue
+					}
+				}
 				ms := f.fieldMentions(l, fields, T, opts, links)
 				for _, m := range ms {
 					emit(m, info.TypeOf(l))
@@ -527,6 +537,10 @@ type CodecPair struct {
 	// MentionsOnly skips the stream-order comparison (converter pairs that
 	// do no stream I/O).
 	MentionsOnly bool
+	// NamedOnly compares, with types, only the elements that carry a field
+	// of the value (presence flags written in both branches of an if/else
+	// would otherwise be counted twice by the syntactic trace).
+	NamedOnly bool
 }
 
 // CheckPair evaluates the pair and records sites / failures on o.
@@ -585,6 +599,15 @@ func (p *Prog) CheckPair(o *Obl, cp CodecPair) {
 		return e.Field
 	}
 	filter := func(ev []Event) []Event {
+		if cp.NamedOnly {
+			var out []Event
+			for _, e := range ev {
+				if e.Field != "" {
+					out = append(out, e)
+				}
+			}
+			return out
+		}
 		if cp.CompareTypes {
 			return ev
 		}
